@@ -53,7 +53,7 @@ func VH_C02_qc(n int, m int, cache int, ed int) {
 	vclass("repeated-claimed-signer", VRepeated(es))
 	vclass("view-label-differs-from-block-view", target <= 1 && label != tview)
 	err := w.Auth.VerifyQuorumCert(qc)
-	q := hotstuff.QuorumSize(n)
+	q := hotstuff.VQuorumRef(n)
 	vobserve("accepted", vhB(err == nil))
 	if err == nil {
 		vcover("accepted")
@@ -85,7 +85,7 @@ func VH_C02_tc(n int, m int, cache int, ed int) {
 	tc := hotstuff.NewTimeoutCert(w.Multi(es, msgs), label)
 	vclass("repeated-claimed-signer", VRepeated(es))
 	err := w.Auth.VerifyTimeoutCert(tc)
-	q := hotstuff.QuorumSize(n)
+	q := hotstuff.VQuorumRef(n)
 	vobserve("accepted", vhB(err == nil))
 	if err == nil {
 		vcover("accepted")
@@ -139,7 +139,7 @@ func vhRot(start, i, n int) int { return (start+i)%n + 1 }
 // block / a view / their timeout messages; the assembled certificates verify at every replica.
 func VH_C02_complete(n int, extra int, cache int, ed int) {
 	w := VNewWorld(1, n, ed == 1, cache, vsymbolic())
-	q := hotstuff.QuorumSize(n)
+	q := hotstuff.VQuorumRef(n)
 	cnt := q + extra
 	vassume(cnt <= n && cnt >= 2)
 	start := nondetInt("start")
@@ -203,7 +203,7 @@ func VH_C02_complete(n int, extra int, cache int, ed int) {
 // aggregate signature.
 func VH_C02_agg(n int, r int, m int, pat int, idpat int, ed int) {
 	w := VNewWorld(1, n, ed == 1, 0, vsymbolic(), core.WithAggregateQC())
-	q := hotstuff.QuorumSize(n)
+	q := hotstuff.VQuorumRef(n)
 	vB := hotstuff.View(nondetU64("vB"))
 	vB2 := hotstuff.View(nondetU64("vB2"))
 	vassume(vB >= 1 && vB2 >= 1 && vB < 1<<62 && vB2 < 1<<62)
